@@ -427,7 +427,7 @@ static void roundtrip(const std::string & dir, int nsalts, long only_pid, long o
       std::ofstream out(fn, std::ios::trunc);
       if (!out) infra("cannot write " + fn);
       out.precision(15);
-      for (size_t i = cuts[f]; i < cuts[f + 1]; i++) write_record(out, (int)(i - cuts[f]), items[i].ev);
+      for (size_t i = cuts[f]; i < cuts[f + 1]; i++) write_record(out, f == 1 ? (int)i : (int)(i - cuts[f]), items[i].ev);   // second file: global ids
       out.close();
       if (!out) infra("write error on " + fn);
       cfg.event_files.push_back(fn);
@@ -502,7 +502,10 @@ static Stored write_config(const Config & c, int cid, const std::string & dir)
     for (int i = 0; i < c.files[f]; i++) {
       size_t pid = ((size_t)cid * 31 + (size_t)rank * 7) % pool.size();
       event ev   = make_event(pool[pid], (uint64_t)cid * 16 + rank + 5000000, rank);
-      write_record(out, i, ev);
+      // the id column is whatever the writer chose: the reader numbers events by their position in the concatenated stream
+      // (bxdecay0-run counts from 0 in each run; a run split into chunks, two runs concatenated, or a global numbering are as legal)
+      int idcol = (cid % 4 == 0) ? i : (cid % 4 == 1) ? rank : (cid % 4 == 2) ? (i % 3) : (i + 1000);
+      write_record(out, idcol, ev);
       st.ev.push_back(ev);
       st.pid.push_back(pid);
       rank++;
